@@ -126,8 +126,16 @@ def main():
         tb = traceback.extract_tb(e.__traceback__)
         inner = tb[-1] if tb else None
         from_repo = inner is not None and os.path.realpath(inner.filename).startswith(os.path.realpath(common.REPO) + os.sep)
+        observers = ("layer_e.py", "layer_s.py", "layer_m.py", "det_run.py")
+        in_observer = inner is not None and os.path.basename(inner.filename) in observers
         if isinstance(e, common.TieBroken):
             ctx.unproved.append({"kind": "correspondence", "component": "implementation trace not representable in the model's vocabulary", "detail": str(e)[:400]})
+        elif in_observer and isinstance(e, (AttributeError, KeyError, IndexError, TypeError, ValueError)) and proof_broken is None:
+            # the harness reads the implementation's objects (container fields, scheduler queues, results) to compare them with the model; on the unchanged code
+            # these reads never fail.  If one does, the code no longer has the shape the correspondence was built on: the tie is broken (not the infrastructure)
+            chain = [f"{os.path.basename(fr.filename)}:{fr.lineno} {fr.name}" for fr in tb[-4:]]
+            ctx.unproved.append({"kind": "correspondence", "component": "the harness could not observe the implementation (an attribute, key or shape it reads is gone)",
+                                 "detail": f"{type(e).__name__}: {str(e)[:200]}", "where": chain})
         elif from_repo:
             chain = [f"{os.path.relpath(fr.filename, common.REPO) if fr.filename.startswith(common.REPO) else os.path.basename(fr.filename)}:{fr.lineno} {fr.name}" for fr in tb[-6:]]
             ctx.violations.append({"what": f"the implementation raised {type(e).__name__}: {str(e)[:200]} on a generated valid input", "layer": "-",
